@@ -354,7 +354,8 @@ package main
 //@   loop 1 invariant every-downloaded-file-is-processed {C16}: processedN == _idx
 //@   loop 1 invariant temp-files {C17}: tmp == elemsS(elems(files), off(files), len(files)) && !scanErr && !openFail && wfailOn == store(store(noFail, os.Stdout, wfailOn[os.Stdout]), os.Stderr, wfailOn[os.Stderr])
 //@   loop 1 invariant ops {C18}: envOps > 0 && outN >= old(outN)
-//@   loop 1 invariant keyfile {C11}: implies(encOn && old(fsKind)[kf] != 0, fsWrites == old(fsWrites) && fsKind[kf] == old(fsKind)[kf] && fsData[kf] == old(fsData)[kf] && keyValid)
+//@   loop 1 invariant keyfile {C11}: implies(encOn && old(fsKind)[kf] != 0, fsWrites[kf] == old(fsWrites)[kf] && fsKind[kf] == old(fsKind)[kf] && fsData[kf] == old(fsData)[kf] && keyValid)
+//@   loop 1 invariant new-keyfile {C11}: implies(encOn && old(fsKind)[kf] == 0, fsKind[kf] == 1 && fsPerm[kf] == 384 && havePersisted && fsData[kf] == sbytes(b64enc(persistedKey)) && blen(persistedKey) == 64)
 //@   loop 1 invariant key {C11}: implies(shouldEncrypt && encryptionKey != nil, havePersisted && persistedKey == mkbytes(elems(encryptionKey), off(encryptionKey), len(encryptionKey)))
 //@   loop 1 invariant cfg {C01,C05}: redactedString == old(*replacement) && G.redactNumbers == old(*redactNumbers) && G.redactBooleans == old(*redactBooleans) && G.redactIPs == old(*redactIPs) && G.redactNamespaces == old(*redactNamespaces) && G.eagerRedactionPaths == old(*eagerRedactionPaths) && (G.redactedFieldsRegexp == nil) == (old(*redactedFieldsRegexp) == "")
 //@   exit_requires nonzero {C18,C08}: code != 0
@@ -367,8 +368,8 @@ package main
 //@   loop 1 invariant all-output-flushed {C08}: unflushed == 0
 //@   exit_requires no-temp-left {C17}: tmp == emptyset
 //@   ensures no-temp-left {C17}: tmp == emptyset
-//@   exit_requires existing-key-file-untouched {C11}: implies(encOn && old(fsKind)[kf] != 0, fsWrites == old(fsWrites) && fsKind[kf] == old(fsKind)[kf] && fsData[kf] == old(fsData)[kf])
-//@   ensures existing-key-file-untouched {C11}: implies(encOn && old(fsKind)[kf] != 0, fsWrites == old(fsWrites) && fsKind[kf] == old(fsKind)[kf] && fsData[kf] == old(fsData)[kf])
+//@   exit_requires existing-key-file-untouched {C11}: implies(encOn && old(fsKind)[kf] != 0, fsWrites[kf] == old(fsWrites)[kf] && fsKind[kf] == old(fsKind)[kf] && fsData[kf] == old(fsData)[kf])
+//@   ensures existing-key-file-untouched {C11}: implies(encOn && old(fsKind)[kf] != 0, fsWrites[kf] == old(fsWrites)[kf] && fsKind[kf] == old(fsKind)[kf] && fsData[kf] == old(fsData)[kf])
 //@   exit_requires unusable-key-no-output {C11}: implies(encOn && old(fsKind)[kf] != 0 && !keyValid, outN == old(outN))
 //@   ensures unusable-key-never-succeeds {C11}: !(encOn && old(fsKind)[kf] != 0 && !keyValid)
 //@   ensures new-key-stored {C11}: implies(encOn && old(fsKind)[kf] == 0, fsKind[kf] == 1 && fsPerm[kf] == 384 && havePersisted && fsData[kf] == sbytes(b64enc(persistedKey)) && blen(persistedKey) == 64)
